@@ -22,3 +22,30 @@ Definition run_cfi_rules (written : list (bytes * option Z)) (callee : list (byt
   let cal := fun x => match find (fun e : bytes * Z => bytes_eqb x (fst e)) callee with Some e => snd e | None => 0 end in
   let regs := a64_walk (@rev _) written cal in
   map (fun n => match a64_memoize n with Some r => regs r | None => None end) observe.
+
+(* A cases: adaptive walks on the real Symbolizer under an explicit poll schedule (then round-robin rounds until every walk is
+   over): per task its result and its answer log, the supplier's call log, the stats entry of every key, the counters *)
+From RM Require Import C13.Adaptive.
+Definition a_nat_of_z (x : Z) : nat := Z.to_nat x.
+Definition a_z_of_nat (n : nat) : Z := Z.of_nat n.
+Definition a_cfg (scripts : list (nat * C12.Model.outcome)) : C12.Model.config :=
+  {| C12.Model.tasks := [];
+     C12.Model.susp := fun k => fst (nth k scripts (O, C12.Model.ONotFound));
+     C12.Model.outc := fun k => snd (nth k scripts (O, C12.Model.ONotFound));
+     C12.Model.leaf := fun k => k |}.
+Fixpoint a_rounds (c : C12.Model.config) (n fuel : nat) (s : @astate nat) : @astate nat :=
+  match fuel with
+  | O => s
+  | S f => if aall_done n s then s else a_rounds c n f (fold_left (fun s t => apoll c t s) (seq 0 n) s)
+  end.
+(* a tree node of the case: look key k up, continue with [ok] if the symbols were loaded (fill_symbol = Ok), else with [err] *)
+Definition a_ask (k : nat) (ok err : @atask nat) : @atask nat :=
+  AAsk k (fun o => match o with C12.Model.OOk => ok | _ => err end).
+Definition a_done (v : nat) : @atask nat := ADone v.
+Definition run_adaptive (scripts : list (nat * C12.Model.outcome)) (trees : list (@atask nat)) (sched : list nat) (fuel : nat)
+  : (list (option nat) * list (list (nat * C12.Model.outcome))) * (list nat * (list (option C12.Model.outcome) * (nat * nat))) :=
+  let c := a_cfg scripts in
+  let n := length trees in
+  let s := a_rounds c n fuel (arun c O trees sched) in
+  ((map (aresult s) (seq 0 n), map (C12.Model.results (ash s)) (seq 0 n)),
+   (C12.Model.calls (ash s), (map (C12.Model.stats (ash s)) (seq 0 (length scripts)), (C12.Model.req (ash s), C12.Model.proc (ash s))))).
